@@ -44,6 +44,16 @@ func lora125(first int, sfs ...int) map[int]DRDef {
 	return m
 }
 
+// withLRFHSS adds the LR-FHSS data-rates of RP002-1.0.2 and later (EU868 DR8..11, US915 DR5..6, AU915
+// DR7): only the modulation is listed (written as the library's data-rate type spells the three
+// modulations), coding rate and occupied channel width are not judged.
+func withLRFHSS(m map[int]DRDef, drs ...int) map[int]DRDef {
+	for _, dr := range drs {
+		m[dr] = DRDef{Mod: "LR_FHSS"}
+	}
+	return m
+}
+
 func euDRs() map[int]DRDef {
 	m := lora125(0, 12, 11, 10, 9, 8, 7)
 	m[6] = DRDef{Mod: "LORA", SF: 7, BW: 250}
@@ -72,7 +82,7 @@ func series(start, step uint32, n int, minDR, maxDR uint32) [][3]uint32 {
 // Regions by canonical name. AS923 variants are derived with AS923(offset).
 var Regions = map[string]Region{
 	"EU868": {Name: "EU868", RX1Kind: "eu", EURows: []int{0, 1, 2, 3, 4, 5, 6, 7}, MaxPosOffset: 5, PingSlotFixed: 869525000, RX2Freq: 869525000, RX2DR: 0,
-		DefaultUplink: chans(0, 5, 868100000, 868300000, 868500000), DefaultDown: chans(0, 5, 868100000, 868300000, 868500000), DRs: euDRs()},
+		DefaultUplink: chans(0, 5, 868100000, 868300000, 868500000), DefaultDown: chans(0, 5, 868100000, 868300000, 868500000), DRs: withLRFHSS(euDRs(), 8, 9, 10, 11)},
 	"EU433": {Name: "EU433", RX1Kind: "eu", EURows: []int{0, 1, 2, 3, 4, 5, 6, 7}, MaxPosOffset: 5, PingSlotFixed: 434665000, RX2Freq: 434665000, RX2DR: 0,
 		DefaultUplink: chans(0, 5, 433175000, 433375000, 433575000), DefaultDown: chans(0, 5, 433175000, 433375000, 433575000), DRs: euDRs()},
 	"CN779": {Name: "CN779", RX1Kind: "eu", EURows: []int{0, 1, 2, 3, 4, 5, 6, 7}, MaxPosOffset: 5, PingSlotFixed: 785000000, RX2Freq: 786000000, RX2DR: 0,
@@ -123,7 +133,7 @@ var Regions = map[string]Region{
 			for i, sf := range []int{12, 11, 10, 9, 8, 7} {
 				m[8+i] = DRDef{Mod: "LORA", SF: sf, BW: 500}
 			}
-			return m
+			return withLRFHSS(m, 5, 6)
 		}()},
 	"AU915": {Name: "AU915", RX1ChannelMod: 8, RX1Kind: "au", MaxPosOffset: 5, RX2Freq: 923300000, RX2DR: 8,
 		PingSlotHop: func() []uint32 {
@@ -143,7 +153,7 @@ var Regions = map[string]Region{
 			for i, sf := range []int{12, 11, 10, 9, 8, 7} {
 				m[8+i] = DRDef{Mod: "LORA", SF: sf, BW: 500}
 			}
-			return m
+			return withLRFHSS(m, 7)
 		}()},
 }
 
